@@ -47,8 +47,8 @@ def steps_from(cur, edges):
     """possible next steps from oriented segment cur: [(eid, orient, next)]"""
     out = []
     for (eid, a, oa, b, ob) in edges:
-        if a == b:
-            continue      # self-loop edges are not walked (they only matter for induced edge sets)
+        if a == b and oa != ob:
+            continue      # hairpin edges are not walked (both readings start at the same end)
         if (a, oa) == cur:
             out.append((eid, "+", (b, ob)))
         if (b, inv(ob)) == cur:
